@@ -67,7 +67,10 @@ def main():
                     if k['key'] in known:
                         continue
                     known.add(k['key'])
+                    unconf = k['what'] == 'UNCONFIRMED-AT-RECORDING'
                     k['what'] = what(p, k['key'])
+                    if unconf:
+                        k['what'] = 'ORDER-DEPENDENT (the engine finds it under its fixed map-iteration policy; natively it shows only under some Go map iteration orders and did not show in 8 attempts when recorded; see C08): ' + k['what']
                     out.write(json.dumps(k) + '\n')
                     n += 1
             last = [l for l in r.stdout.splitlines() if l.startswith(p + ' ')]
